@@ -96,11 +96,25 @@ func stricAsc(keys []string) bool {
 // evalC08 checks one build attempt. longInput: some key or shared run exceeds
 // the documented 16 KiB, so rejection is allowed, silent loss is not.
 func evalC08(w *h.Worker, keys []string, opt h.Opt4, withVals bool, longInput bool) *h.Viol {
+	if v := evalC08v(w, keys, opt, withVals, longInput, 1); v != nil || !withVals || len(keys) < 2 || len(keys) > 64 {
+		return v
+	}
+	// equal neighbouring values (pairs, then all equal): a key that de-duplication
+	// leaves out of the index is still part of the input whose order is checked
+	if v := evalC08v(w, keys, opt, true, longInput, 2); v != nil {
+		return v
+	}
+	return evalC08v(w, keys, opt, true, longInput, len(keys))
+}
+
+// evalC08v: values change every `run` keys.
+func evalC08v(w *h.Worker, keys []string, opt h.Opt4, withVals bool, longInput bool, run int) *h.Viol {
+	valOf := func(i int) int32 { return int32((i/run)*3 + 1) }
 	var vals interface{}
 	if withVals {
 		v := make([]int32, len(keys))
 		for i := range v {
-			v[i] = int32(i*3 + 1)
+			v[i] = valOf(i)
 		}
 		vals = v
 	}
@@ -123,7 +137,7 @@ func evalC08(w *h.Worker, keys []string, opt h.Opt4, withVals bool, longInput bo
 	if !asc {
 		if err == nil {
 			w.Outcome("accepted-unsorted")
-			return &h.Viol{Sig: "unsorted-accepted", Msg: "a key list that is not strictly ascending was accepted"}
+			return &h.Viol{Sig: "unsorted-accepted", Msg: fmt.Sprintf("a key list that is not strictly ascending was accepted (values change every %d keys)", run)}
 		}
 		w.Outcome("rejected-unsorted")
 		if errors.Cause(err) != trie.ErrKeyOutOfOrder {
@@ -154,14 +168,24 @@ func evalC08(w *h.Worker, keys []string, opt h.Opt4, withVals bool, longInput bo
 	var viol *h.Viol
 	pp := h.Safely(func() {
 		for i, k := range keys {
+			if withVals && run > 1 {
+				// with equal neighbouring values the guarantee for every input key is RangeGet's
+				v, found := st.RangeGet(k)
+				w.Trans++
+				if !found || v != valOf(i) {
+					viol = &h.Viol{Sig: "accepted-but-key-lost", Msg: fmt.Sprintf("accepted input (values change every %d keys), but RangeGet on its own key #%d (%s) = (%v,%v), want %d", run, i, briefQ(k), v, found, valOf(i))}
+					return
+				}
+				continue
+			}
 			v, found := st.Get(k)
 			w.Trans++
 			if !found {
 				viol = &h.Viol{Sig: "accepted-but-key-lost", Msg: fmt.Sprintf("accepted input, but Get on its own key #%d (%s) reports not found", i, briefQ(k))}
 				return
 			}
-			if withVals && v != int32(i*3+1) {
-				viol = &h.Viol{Sig: "accepted-but-wrong-value", Msg: fmt.Sprintf("accepted input, but Get on key #%d (%s) = %v, want %d", i, briefQ(k), v, i*3+1)}
+			if withVals && v != valOf(i) {
+				viol = &h.Viol{Sig: "accepted-but-wrong-value", Msg: fmt.Sprintf("accepted input, but Get on key #%d (%s) = %v, want %d", i, briefQ(k), v, valOf(i))}
 				return
 			}
 		}
@@ -184,7 +208,7 @@ type c08Unit struct {
 func runC08(r *h.Run) {
 	thorough := r.Tier == "thorough"
 	sp := newSpaceCtx(r.Seed)
-	r.Rule = "(i) every key SEQUENCE (ordered, repetitions allowed) of length <= 4 (quick) / 5 (thorough) over U(Sigma4,2) x 4 prefix modes x {values, nil}; (ii) valid lists of 8..200 keys with one injected order violation (duplicate, swapped neighbours, key followed by its own prefix, 0x7f/0x80 signed-order inversion) at EVERY index, and two violations at every pair of indexes (n <= 40); (ii-b) every list of the shared scaffold set (257-bit nodes, big-node pairs / nibble / alias shapes, short tables, shifts, sweep) over K(U21,2); (iii) lists whose single-branch run is r bytes long for every r of the tier's range, ending on a high- and a low-nibble difference, at the root, under an inner node, with a tail key, and ending at a 12-way fan-out (257-bit node) at the root and under a 257-bit root; oracle: strictly ascending <=> accepted, rejected => ErrKeyOutOfOrder and nil trie, accepted => every own key is found with its value; beyond the documented 16 KiB either outcome is allowed but never silent loss. Distinct by construction; non-trivial = at least 2 keys"
+	r.Rule = "(i) every key SEQUENCE (ordered, repetitions allowed) of length <= 4 (quick) / 5 (thorough) over U(Sigma4,2) x 4 prefix modes x {nil, distinct values, values equal in pairs, all values equal}; (ii) valid lists of 8..200 keys with one injected order violation (duplicate, swapped neighbours, key followed by its own prefix, 0x7f/0x80 signed-order inversion) at EVERY index, and two violations at every pair of indexes (n <= 40); (ii-b) every list of the shared scaffold set (257-bit nodes, big-node pairs / nibble / alias shapes, short tables, shifts, sweep) over K(U21,2); (iii) lists whose single-branch run is r bytes long for every r of the tier's range, ending on a high- and a low-nibble difference, at the root, under an inner node, with a tail key, and ending at a 12-way fan-out (257-bit node) at the root and under a 257-bit root; oracle: strictly ascending <=> accepted, rejected => ErrKeyOutOfOrder and nil trie, accepted => every own key is found with its value; beyond the documented 16 KiB either outcome is allowed but never silent loss. Distinct by construction; non-trivial = at least 2 keys"
 	r.Assumptions = []string{"documented key length limit = 16 KiB (README)", "a refusal (error or panic) of an over-limit input is tolerated, a lost key is not"}
 	r.Bounds["alphabet"] = fmt.Sprintf("%x", sp.sigma)
 	maxLen := 4
@@ -227,7 +251,7 @@ func runC08(r *h.Run) {
 		}
 	}, func(w *h.Worker, x interface{}) {
 		u := x.(c08Unit)
-		w.Begin(func() string { return "C08 sequence" })
+		w.Begin(func() string { return fmt.Sprintf("C08 sequence keys=%v (all 4 prefix modes, nil / distinct / pairwise-equal / all-equal values)", hexKeys(u.keys)) })
 		for _, o := range c08Modes {
 			for _, wv := range []bool{true, false} {
 				w.Evals++
